@@ -387,7 +387,24 @@ func c06Fifo(p *core.Program, r *core.Report) {
 				ok = false
 			}
 		}
-		r.Check(ok, "C06.fifo", "net/oneway.OneWayTcpClient."+m+" dequeue", p.Pos(fi.Decl.Pos()), "takes from the head ("+strings.Join(uniq(takes), ",")+")", "the drain does not take from the head of the queue")
+		// the drain only takes: putting a pack back (at the tail, behind packs accepted later) breaks
+		// the acceptance order and can duplicate frames after a reconnect
+		var puts []string
+		ast.Inspect(fi.Decl.Body, func(n ast.Node) bool {
+			if call, isCall := n.(*ast.CallExpr); isCall {
+				s := stripSpaces(types.ExprString(call.Fun))
+				if strings.Contains(s, ".Queue.") && (strings.Contains(s, "Put") || strings.Contains(s, "Add")) {
+					puts = append(puts, s[strings.LastIndex(s, ".")+1:]+" at "+p.Pos(call.Pos()))
+				}
+			}
+			return true
+		})
+		why := "the drain does not take from the head of the queue"
+		if len(puts) > 0 {
+			ok = false
+			why = "the drain puts a pack back on the queue (" + strings.Join(puts, ", ") + "): it lands behind packs accepted later, so frames leave out of acceptance order (and may be sent twice)"
+		}
+		r.Check(ok, "C06.fifo", "net/oneway.OneWayTcpClient."+m+" dequeue", p.Pos(fi.Decl.Pos()), "takes from the head ("+strings.Join(uniq(takes), ",")+"), never re-enqueues", why)
 	}
 	// one drain goroutine, started in the singleton constructor
 	pk := p.Pkg("net/oneway")
